@@ -1,6 +1,7 @@
 import CgtModel.Report
 import CgtModel.Lemmas.Offsets
 import CgtModel.Lemmas.Cost
+import CgtModel.Lemmas.Prepass
 /-! # C11 — capital returns and accumulations move cost by exactly their amount
 
 Statement: a capital return lowers, an accumulation raises, the allowable expenditure of the security by
@@ -46,14 +47,17 @@ theorem C11_spent_lots_untouched (adj : Rat) (lots : List Lot) (l : Lot) (hl : l
     the day's events are applied before the day's purchase is added -/
 theorem C11_later_lot_keeps_zero_offset (t : String) (lots lots' : List Lot) (d : Day) (b : Trade)
     (hb : d.buy = some b) (hs : d.sells = []) (h : prepassDay t lots d = .ok lots') :
-    ∃ pre, lots' = pre ++ [{ ord := d.ord, q := b.q, p := b.p, f := b.f }] := by
+    ∃ pre, lots' = pre ++ [scaleLot d.r { ord := d.ord, q := b.q, p := b.p, f := b.f }] ∧
+      (scaleLot d.r { ord := d.ord, q := b.q, p := b.p, f := b.f }).off = 0 := by
   unfold prepassDay at h
   simp only [hb, hs, List.foldl_nil] at h
   split at h
   · cases h
   · rename_i l2 _
     simp only [Except.ok.injEq] at h
-    exact ⟨l2, h.symm⟩
+    refine ⟨l2.map (scaleLot d.r), ?_, ?_⟩
+    · rw [← h]; simp
+    · unfold scaleLot; split <;> rfl
 
 theorem C11_equal_events_cancel (v : Rat) (lots : List Lot) :
     (applyAdj (-v) (applyAdj v lots)).map (·.off) = lots.map (·.off) := applyAdj_cancel v lots
@@ -79,5 +83,25 @@ def minAdjCost (r : Except MErr (List Lot)) : Rat :=
   | .error _ => 0
 
 example : minAdjCost (prepass "A" [] negativeLotWitness) < 0 := by decide +kernel
+
+/-- **a SPLIT/UNSPLIT changes share counts and nothing else in the pre-pass** (the repair of D5): restating a
+    lot in the new units keeps its date, its cost offset and its adjusted cost, and multiplies the shares
+    it still holds by the factor — so later events are apportioned over, and refused against, the lots as
+    they stand in current units -/
+theorem C11_split_restates_only_share_counts (r : Rat) (hr : r ≠ 0) (l : Lot) :
+    (scaleLot r l).ord = l.ord ∧ (scaleLot r l).off = l.off ∧ (scaleLot r l).adjCost = l.adjCost ∧
+    (scaleLot r l).held = l.held * r := by
+  refine ⟨scaleLot_ord r l, scaleLot_off r l, ?_, scaleLot_held r l hr⟩
+  have hinv : r * r⁻¹ = 1 := Rat.mul_inv_cancel _ hr
+  unfold scaleLot Lot.adjCost
+  simp only [hr, if_false, Rat.div_def]
+  grind
+
+/-- the D5 witness in the model: 10 bought, 2-for-1 split, 15 sold, then a capital return of 10 — accepted,
+    all of it on the one lot, whose 5 remaining shares are counted in post-split units -/
+example : (match prepass "A" [] [ { date := ⟨2024, 1, 1⟩, buy := some ⟨0, 10, 10, 0⟩ }, { date := ⟨2024, 2, 1⟩, r := 2 },
+      { date := ⟨2024, 3, 1⟩, sells := [⟨2, 15, 10, 0⟩] }, { date := ⟨2024, 4, 1⟩, caps := [(3, 10)] } ] with
+    | .ok lots => lots.map (fun l => (l.held, l.off))
+    | .error _ => []) = [(5, -10)] := by decide +kernel
 
 end Cgt.C11
